@@ -506,3 +506,213 @@ Proof.
       { rewrite L3, I5. apply cnt_carry; try lia. intros j Hj. apply I2. lia. }
       left. exact L3.
 Qed.
+
+(* ------------------------------------------------------------------ coo_sum_duplicates *)
+Definition op_post (c c' : coo) : Prop :=
+  stack_ok c' /\
+  cap c' = cap c /\ zlen (mn c') = zlen (mn c) /\ 0 <= ind c' <= ind c /\ Z.abs (nthZ (mn c') 0) = ind c' /\
+  (forall k, sumby (live c') k = sumby (live c) k) /\
+  cnt (mn c') (depth c') <= cnt (mn c) (depth c) + 1 /\
+  (depth c' = depth c \/ (depth c' = depth c + 1 /\ 2 ^ depth c <= cnt (mn c) (depth c) + 1)).
+
+Lemma csd_ok c :
+  stack_ok c -> ind c < cap c -> cnt (mn c) (depth c) + 1 < 2 ^ (zlen (mn c) - 1) ->
+  exists c', coo_sum_duplicates c = Ok c' /\ op_post c c'.
+Proof.
+  intros [Hd Hz Hch Hi Hk] Huc Hcnt.
+  set (lo := Z.abs (nthZ (mn c) 0)).
+  assert (Hlo0 : 0 <= lo) by apply Z.abs_nonneg.
+  destruct (sd_phase c lo) as (cm & S1 & S2 & S3 & S4 & S5 & S6); try lia; try reflexivity.
+  assert (Hseg : keys_nonneg (slice (buf c) lo (ind c))) by (apply live_slice_nonneg; [lia|exact Hk]).
+  assert (SO : stack_ok cm).
+  { constructor; rewrite ?S2, ?S3; auto; try (fold lo; lia).
+    rewrite S6. apply keys_nonneg_app. split; [apply live_prefix_nonneg; [lia|exact Hk]|].
+    apply keys_nonneg_rlc. eapply keys_nonneg_perm; [apply sort_perm|exact Hseg]. }
+  destruct (msd_ok cm SO) as (c' & M1 & M2 & M3 & M4 & M5 & M6 & M7 & M8 & M9).
+  { rewrite S4. lia. }
+  { rewrite S2, S3. exact Hcnt. }
+  exists c'. split; [rewrite S1; exact M1|].
+  rewrite S2, S3, S4 in *.
+  split; [exact M2|]. split; [exact M3|]. split; [exact M4|]. split; [lia|]. split; [exact M6|].
+  split; [|split; [exact M8|exact M9]].
+  intros k. rewrite M7, S6, sumby_app, rlc_sumby.
+  rewrite <- (sumby_perm _ _ k (sort_perm (slice (buf c) lo (ind c)))).
+  unfold live. rewrite (firstn_slice (buf c) lo (ind c)) by lia. rewrite sumby_app. reflexivity.
+Qed.
+
+(* ------------------------------------------------------------------ merge_all_sum_duplicates *)
+Definition gt0 (x : Z) : bool := x >? 0.
+Definition absge (a b : Z) : Prop := Z.abs b <= Z.abs a.
+
+Lemma getZ_Ok_nthZ s (l : list Z) j x : getZ s l j = Ok x -> nthZ l j = x.
+Proof.
+  unfold getZ, nthZ. destruct (j <? 0); [discriminate|].
+  destruct (nth_error l (Z.to_nat j)) eqn:E; [|discriminate].
+  intros H; inversion H; subst. apply nth_error_nth. exact E.
+Qed.
+
+Lemma positives_ok m X : forall i q, seg m i q X -> positives (length X) i m = Ok (filter gt0 X).
+Proof.
+  induction X as [|x t IH]; intros i q Hs; simpl; [reflexivity|].
+  apply (seg_cons S_ma_min_i) in Hs. destruct Hs as [G Hs].
+  rewrite G. simpl bind. rewrite (IH _ _ Hs). simpl bind. unfold gt0. reflexivity.
+Qed.
+
+Lemma npos_filter m X : forall i q, seg m i q X -> npos_range m i (length X) = zlen (filter gt0 X).
+Proof.
+  induction X as [|x t IH]; intros i q Hs; simpl npos_range; [reflexivity|].
+  apply (seg_cons S_ma_min_i) in Hs. destruct Hs as [G Hs].
+  apply getZ_Ok_nthZ in G. rewrite G, (IH _ _ Hs). simpl filter. unfold gt0 at 2.
+  destruct (x >? 0); zl; lia.
+Qed.
+
+Lemma nthZ_firstn l d j : 0 <= j < d -> nthZ (firstn (Z.to_nat d) l) j = nthZ l j.
+Proof.
+  intros H. unfold nthZ. destruct (j <? 0); [reflexivity|].
+  rewrite <- (firstn_skipn (Z.to_nat d) l) at 2.
+  destruct (Z_lt_le_dec j (zlen (firstn (Z.to_nat d) l))).
+  - rewrite app_nth1 by (unfold zlen in *; lia). reflexivity.
+  - rewrite nth_overflow by (unfold zlen in *; lia).
+    assert (length l <= Z.to_nat d)%nat.
+    { unfold zlen in l0. rewrite firstn_length in l0. lia. }
+    rewrite skipn_all2 by lia. rewrite app_nil_r. rewrite nth_overflow; [reflexivity|].
+    rewrite firstn_length. unfold zlen in l0. rewrite firstn_length in l0. lia.
+Qed.
+
+Lemma nthZ_cons_S a t j : 0 <= j -> nthZ (a :: t) (j + 1) = nthZ t j.
+Proof.
+  intros H. change (a :: t) with ([a] ++ t). rewrite nthZ_app_r by (zl; lia). zl. f_equal. lia.
+Qed.
+
+Lemma adjacent_sorted (X : list Z) :
+  (forall j, 0 <= j -> j + 1 < zlen X -> absge (nthZ X j) (nthZ X (j + 1))) -> StronglySorted absge X.
+Proof.
+  induction X as [|a t IH]; intros H; [constructor|].
+  assert (Ht : StronglySorted absge t).
+  { apply IH. intros j Hj0 Hj. specialize (H (j + 1) ltac:(lia) ltac:(zl; lia)).
+    rewrite !nthZ_cons_S in H by lia. exact H. }
+  constructor; [exact Ht|].
+  destruct t as [|b t']; [constructor|].
+  assert (Hab : absge a b).
+  { specialize (H 0 ltac:(lia) ltac:(zl; pose proof (zlen_nonneg t'); lia)). exact H. }
+  constructor; [exact Hab|].
+  inversion Ht as [|? ? _ F]; subst. eapply Forall_impl; [|exact F].
+  unfold absge in *. simpl. intros; lia.
+Qed.
+
+Lemma filter_sorted f (X : list Z) : StronglySorted absge X -> StronglySorted absge (filter f X).
+Proof.
+  induction 1 as [|a t Ht IH F]; simpl; [constructor|].
+  destruct (f a); [|exact IH]. constructor; [exact IH|].
+  rewrite Forall_forall in *. intros x Hx. apply F. apply filter_In in Hx. apply Hx.
+Qed.
+
+Lemma sorted_adjacent (X : list Z) : StronglySorted absge X ->
+  forall j, 0 <= j -> j + 1 < zlen X -> absge (nthZ X j) (nthZ X (j + 1)).
+Proof.
+  induction 1 as [|a t Ht IH F]; intros j Hj0 Hj; [zl; lia|].
+  destruct (Z.eq_dec j 0) as [->|Hne].
+  - destruct t as [|b t']; [zl; lia|]. inversion F; subst. exact H1.
+  - zl. specialize (IH (j - 1) ltac:(lia) ltac:(lia)).
+    replace j with (j - 1 + 1) at 1 by lia. rewrite !nthZ_cons_S by lia.
+    replace (j - 1 + 1) with j in IH by lia. exact IH.
+Qed.
+
+Lemma sorted_hd_bound (X : list Z) x : StronglySorted absge X -> In x X -> Z.abs x <= Z.abs (nthZ X 0).
+Proof.
+  intros H Hin. destruct X as [|a t]; [contradiction|]. inversion H as [|? ? _ F]; subst.
+  destruct Hin as [<-|Hin]; [unfold nthZ; simpl; lia|].
+  rewrite Forall_forall in F. apply F in Hin. unfold absge in Hin. unfold nthZ; simpl. exact Hin.
+Qed.
+
+Lemma nthZ_in (X : list Z) j : 0 <= j < zlen X -> In (nthZ X j) X.
+Proof.
+  intros H. unfold nthZ. destruct (j <? 0) eqn:E; [apply Z.ltb_lt in E; lia|].
+  apply nth_In. unfold zlen in H. lia.
+Qed.
+
+Lemma filter_length_le' {A} (f : A -> bool) l : (length (filter f l) <= length l)%nat.
+Proof. induction l as [|x l IH]; simpl; [lia|]. destruct (f x); simpl; lia. Qed.
+
+Lemma ma_ok c :
+  stack_ok c -> ind c <= cap c -> cnt (mn c) (depth c) + 1 < 2 ^ (zlen (mn c) - 1) ->
+  exists c', merge_all_sum_duplicates c = Ok c' /\ op_post c c'.
+Proof.
+  intros [Hd Hz Hch Hi Hk] Huc Hcnt.
+  set (d := depth c) in *. set (m := mn c) in *.
+  set (X := slice m 0 d).
+  assert (SX : seg m 0 d X) by (apply seg_slice; lia).
+  assert (LX : zlen X = d) by (destruct SX as (_ & H & _); lia).
+  assert (EX : X = firstn (Z.to_nat d) m) by (unfold X, slice; rewrite Z.sub_0_r; reflexivity).
+  set (pos := filter gt0 X).
+  assert (Lp : 0 <= zlen pos <= d).
+  { split; [apply zlen_nonneg|]. rewrite <- LX. unfold pos, zlen.
+    pose proof (filter_length_le' gt0 X). lia. }
+  unfold merge_all_sum_duplicates. fold d. fold m.
+  replace (Z.to_nat d) with (length X) by (unfold zlen in LX; lia).
+  rewrite (positives_ok m X 0 d SX). simpl bind. fold pos.
+  set (new_min := pos ++ repeat 0 (length X - length pos)).
+  assert (Ln : zlen new_min = d).
+  { unfold new_min. zl. unfold zlen in *. lia. }
+  destruct (assign_slice_ok S_ma_assign m 0 d new_min) as (m2 & E1 & E2 & E3); [lia|lia|lia|].
+  rewrite E1. simpl bind.
+  simpl firstn in E2. rewrite app_nil_l in E2.
+  (* pointwise description of the compacted stack *)
+  assert (N1 : forall j, 0 <= j < zlen pos -> nthZ m2 j = nthZ pos j).
+  { intros j Hj. rewrite E2. unfold new_min. rewrite <- app_assoc. apply nthZ_app_l. lia. }
+  assert (N2 : forall j, zlen pos <= j < d -> nthZ m2 j = 0).
+  { intros j Hj. rewrite E2. unfold new_min. rewrite <- app_assoc. rewrite nthZ_app_r by lia.
+    rewrite nthZ_app_l by (zl; unfold zlen in *; lia). apply nthZ_repeat. unfold zlen in *. lia. }
+  assert (N3 : forall j, d <= j -> nthZ m2 j = 0).
+  { intros j Hj. rewrite E2. rewrite nthZ_app_r by lia. rewrite Ln.
+    destruct (Z_lt_le_dec j (zlen m)).
+    - unfold nthZ. destruct (j - d <? 0) eqn:E; [apply Z.ltb_lt in E; lia|].
+      rewrite nth_skipn'. replace (Z.to_nat d + Z.to_nat (j - d))%nat with (Z.to_nat j) by lia.
+      specialize (Hz j Hj). unfold nthZ in Hz. destruct (j <? 0) eqn:E'; [apply Z.ltb_lt in E'; lia|]. exact Hz.
+    - apply nthZ_beyond. rewrite zlen_skipn by lia. lia. }
+  assert (PX : forall x, In x pos -> x > 0 /\ In x X).
+  { intros x Hx. apply filter_In in Hx. destruct Hx as [H1 H2]. unfold gt0 in H2. apply Z.gtb_lt in H2. split; [lia|exact H1]. }
+  assert (SXs : StronglySorted absge X).
+  { apply adjacent_sorted. intros j Hj0 Hj. rewrite EX, !nthZ_firstn by lia. apply Hch. lia. }
+  assert (Sp : StronglySorted absge pos) by (apply filter_sorted, SXs).
+  assert (SO : stack_ok (set_mn c m2)).
+  { constructor; unfold set_mn; simpl; fold d.
+    - lia.
+    - intros j Hj. apply N3, Hj.
+    - intros j Hj.
+      destruct (Z_lt_le_dec (j + 1) (zlen pos)).
+      + rewrite !N1 by lia. apply (sorted_adjacent pos Sp); lia.
+      + assert (nthZ m2 (j + 1) = 0) as ->.
+        { destruct (Z_lt_le_dec (j + 1) d); [apply N2; lia|apply N3; lia]. }
+        simpl. apply Z.abs_nonneg.
+    - destruct (Z_lt_le_dec 0 (zlen pos)).
+      + rewrite N1 by lia.
+        assert (Hin : In (nthZ pos 0) pos) by (apply nthZ_in; lia).
+        apply PX in Hin. destruct Hin as [_ Hin].
+        pose proof (sorted_hd_bound X _ SXs Hin) as Hb.
+        rewrite EX, nthZ_firstn in Hb by lia. fold m in Hi. lia.
+      + assert (nthZ m2 0 = 0) as ->.
+        { destruct (Z_lt_le_dec 0 d); [apply N2; lia|apply N3; lia]. }
+        simpl. pose proof (Z.abs_nonneg (nthZ m 0)). fold m in Hi. lia.
+    - exact Hk. }
+  assert (C2 : cnt m2 d <= cnt m d).
+  { unfold cnt.
+    replace (Z.to_nat d) with (Z.to_nat (zlen pos) + Z.to_nat (d - zlen pos))%nat at 1 by lia.
+    rewrite cnt_range_split. rewrite Z.add_0_l, Z2Nat.id by lia.
+    rewrite (cnt_range_pos m2) by (try lia; intros j Hj; rewrite N1 by lia;
+                                   apply PX, nthZ_in; lia).
+    rewrite (cnt_range_nonpos m2) by (intros j Hj; rewrite N2 by lia; lia).
+    pose proof (cnt_range_npos m (Z.to_nat d) 0 ltac:(lia)) as Q.
+    replace (Z.to_nat d) with (length X) in Q at 1 by (unfold zlen in LX; lia).
+    rewrite (npos_filter m X 0 d SX) in Q. fold pos in Q.
+    rewrite Z2Nat.id by lia. replace (0 + zlen pos) with (zlen pos) by lia.
+    change (2 ^ 0) with 1 in *. lia. }
+  destruct (msd_ok (set_mn c m2) SO) as (c' & M1 & M2 & M3 & M4 & M5 & M6 & M7 & M8 & M9).
+  { exact Huc. }
+  { unfold set_mn; simpl. fold d. rewrite E3. fold m in Hcnt. lia. }
+  exists c'. split; [exact M1|].
+  unfold set_mn in *; simpl in *. unfold d, m in *.
+  split; [exact M2|]. split; [exact M3|]. split; [rewrite M4; exact E3|]. split; [exact M5|].
+  split; [exact M6|]. split; [exact M7|]. split; [lia|].
+  destruct M9 as [M9|[M9 M10]]; [left; exact M9|right; split; [exact M9|lia]].
+Qed.
